@@ -2,6 +2,10 @@ import XyzModel.Sampler
 import XyzProofs.Props.C03
 /-!
 # C15 — sampling only ever appends correct rows
+
+The data file is the truth: `add_df` reloads it before appending, so whichever Sampler object runs — the same one, a
+fresh one, or an older one that another object has overtaken in the meantime — the file afterwards holds its previous
+rows followed by the new ones, and the running object's memory equals the file.
 -/
 namespace Sampler
 open List
@@ -10,31 +14,43 @@ variable {β : Type}
 /-- memory and file agree (or nothing is loaded yet) -/
 def Synced (s : St β) : Prop := s.mem = none ∨ s.mem = s.disk
 
+/-- reachable states: as long as there is no file, no object has anything in memory -/
+def Inv (s : St β) : Prop := s.disk = none → s.mem = none ∧ s.other = none
+
 /-- the table a Sampler would show -/
 def table (s : St β) : List (Row β) := (fullDf s).getD []
 
-theorem table_of_synced (s : St β) (h : Synced s) : table s = s.disk.getD [] := by
-  unfold table fullDf
+/-- the table in the file -/
+def fileTable (s : St β) : List (Row β) := s.disk.getD []
+
+theorem table_of_synced (s : St β) (h : Synced s) : table s = fileTable s := by
+  unfold table fullDf fileTable
   rcases h with h | h
   · simp [h]
   · cases hm : s.mem with
     | none => simp
     | some t => rw [hm] at h; simp [← h]
 
-/-- **appends exactly n rows, changes no earlier row**: one sampling run on a synced sampler -/
-theorem c15_appends_n (f : List Nat → List β) (s : St β) (draws : List (List Nat)) (h : Synced s) :
+/-- **a run appends exactly n rows to the file and changes no earlier row** — whatever the running object had in
+memory (it may be stale: another object may have added rows since) -/
+theorem c15_file_appends (f : List Nat → List β) (s : St β) (draws : List (List Nat)) (h : Inv s) :
+    fileTable (step f s (.sample draws)) = fileTable s ++ rowsOf f draws ∧
+    (step f s (.sample draws)).mem = (step f s (.sample draws)).disk := by
+  unfold fileTable step addDf
+  cases hd : s.disk with
+  | none =>
+    have := h hd
+    simp [this.1]
+  | some t => simp
+
+/-- **appends exactly n rows, changes no earlier row**: what the running sampler shows, for a synced sampler -/
+theorem c15_appends_n (f : List Nat → List β) (s : St β) (draws : List (List Nat)) (h : Synced s) (hi : Inv s) :
     table (step f s (.sample draws)) = table s ++ rowsOf f draws ∧
     (table (step f s (.sample draws))).length = (table s).length + draws.length ∧
     table s <+: table (step f s (.sample draws)) := by
-  have ht := table_of_synced s h
+  obtain ⟨h1, h2⟩ := c15_file_appends f s draws hi
   have key : table (step f s (.sample draws)) = table s ++ rowsOf f draws := by
-    rw [ht]
-    unfold table fullDf step addDf
-    rcases h with h | h
-    · cases hd : s.disk <;> simp [h, hd]
-    · cases hd : s.disk with
-      | none => rw [hd] at h; simp [h, hd]
-      | some t => simp [hd]
+    rw [table_of_synced _ (Or.inr h2), h1, table_of_synced s h]
   refine ⟨key, ?_, ?_⟩
   · rw [key]; simp [rowsOf]
   · rw [key]; exact List.prefix_append _ _
@@ -54,43 +70,69 @@ theorem c15_draws_allowed (f : List Nat → List β) (draws : List (List Nat)) (
   intro r hr
   exact h _ (c15_row_correct f draws r hr).2
 
-/-- **disk = memory after every run** (and after handing over to a new Sampler object) -/
-theorem c15_disk_eq_mem (f : List Nat → List β) (s : St β) (op : Op) (h : Synced s) : Synced (step f s op) := by
+theorem inv_step (f : List Nat → List β) (s : St β) (op : Op) (h : Inv s) : Inv (step f s op) := by
   cases op with
-  | sample draws => right; simp [step, addDf]
-  | newSampler => left; rfl
+  | sample draws => intro hd; simp [step, addDf] at hd
+  | newSampler => intro hd; exact ⟨rfl, (h hd).2⟩
+  | switch => intro hd; exact ⟨(h hd).2, (h hd).1⟩
 
-/-- **whole histories**: from an empty store, after any sequence of runs and new Sampler objects the file holds
-exactly the rows of all runs in order — nothing dropped, nothing altered, nothing added -/
+/-- **disk = memory after every run** (and a fresh Sampler object has nothing in memory) -/
+theorem c15_disk_eq_mem (f : List Nat → List β) (s : St β) (op : Op) (hi : Inv s) (hop : op ≠ .switch) :
+    Synced (step f s op) := by
+  cases op with
+  | sample draws => right; exact (c15_file_appends f s draws hi).2
+  | newSampler => left; rfl
+  | switch => exact absurd rfl hop
+
+/-- **whole histories**: from an empty store, after any sequence of runs, new Sampler objects and switches between two
+live objects, the file holds exactly the rows of all runs in order — nothing dropped, nothing altered, nothing added -/
 theorem c15_history (f : List Nat → List β) (ops : List Op) :
-    ∀ s : St β, Synced s →
-      Synced (run f s ops) ∧ table (run f s ops) = table s ++ rowsOf f (allDraws ops) := by
+    ∀ s : St β, Inv s →
+      Inv (run f s ops) ∧ fileTable (run f s ops) = fileTable s ++ rowsOf f (allDraws ops) := by
   induction ops with
   | nil => intro s h; exact ⟨h, by simp [run, allDraws, rowsOf]⟩
   | cons op rest ih =>
     intro s h
-    have hs := c15_disk_eq_mem f s op h
+    have hs := inv_step f s op h
     obtain ⟨h1, h2⟩ := ih (step f s op) hs
     refine ⟨by simpa [run] using h1, ?_⟩
     have : run f s (op :: rest) = run f (step f s op) rest := rfl
     rw [this, h2]
     cases op with
     | sample draws =>
-      rw [(c15_appends_n f s draws h).1]
+      rw [(c15_file_appends f s draws h).1]
       simp [allDraws, rowsOf, List.append_assoc]
-    | newSampler =>
-      have : table (step f s .newSampler) = table s := by
-        rw [table_of_synced _ hs, table_of_synced _ h]; rfl
-      rw [this]; simp [allDraws]
+    | newSampler => simp [allDraws, step, fileTable]
+    | switch => simp [allDraws, step, fileTable]
+
+/-- after a history that ends in a run, the running sampler shows exactly the file -/
+theorem c15_history_shown (f : List Nat → List β) (ops : List Op) (draws : List (List Nat)) (s : St β) (h : Inv s) :
+    table (run f s (ops ++ [.sample draws])) = fileTable s ++ rowsOf f (allDraws (ops ++ [.sample draws])) := by
+  have hrun : run f s (ops ++ [.sample draws]) = step f (run f s ops) (.sample draws) := by
+    simp [run, List.foldl_append]
+  obtain ⟨hi, _⟩ := c15_history f ops s h
+  have h2 := (c15_history f (ops ++ [.sample draws]) s h).2
+  rw [← h2, hrun]
+  exact table_of_synced _ (Or.inr (c15_file_appends f _ draws hi).2)
 
 /-- **a new sampler continues from the file** -/
-theorem c15_continue (s : St β) (h : Synced s) : table (step (fun _ => ([] : List β)) s .newSampler) = table s := by
+theorem c15_continue (s : St β) : table (step (fun _ => ([] : List β)) s .newSampler) = fileTable s := by
   have hs : Synced (step (fun _ => ([] : List β)) s .newSampler) := Or.inl rfl
-  rw [table_of_synced _ hs, table_of_synced _ h]; rfl
+  rw [table_of_synced _ hs]; rfl
+
+/-- **two objects taking turns**: A runs, B (fresh) runs, A runs again — nothing of B's is lost -/
+theorem c15_two_objects (f : List Nat → List β) (a b a' : List (List Nat)) :
+    table (run f ({} : St β) [.sample a, .switch, .sample b, .switch, .sample a']) =
+      rowsOf f a ++ rowsOf f b ++ rowsOf f a' := by
+  have h := c15_history_shown f [.sample a, .switch, .sample b, .switch] a' ({} : St β) (fun _ => ⟨rfl, rfl⟩)
+  simpa [allDraws, rowsOf, fileTable] using h
 
 /-! Non-vacuity -/
 example : Synced ({} : St Nat) := Or.inl rfl
+example : Inv ({} : St Nat) := fun _ => ⟨rfl, rfl⟩
 example : (table (run (fun l => [l.sum]) ({} : St Nat) [.sample [[1, 2], [3]], .newSampler, .sample [[4]]])).map (·.outputs)
     = [[3], [3], [4]] := by decide
+example : (table (run (fun l => [l.sum]) ({} : St Nat) [.sample [[1]], .switch, .sample [[2]], .switch, .sample [[3]]])).map (·.outputs)
+    = [[1], [2], [3]] := by decide
 
 end Sampler
